@@ -297,9 +297,19 @@ package badgerstore
 //@   preserves nonempty: forallint(k, imp(mapHasId(entries, k), k != keyid("")))
 //@   preserves alive: entries != nil && !isNil(t)
 //@ pred cbsOK(st *Store) = st != nil && forall(k, 0, len(st.onChange), st.onChange[k] != nil) && forall(k, 0, len(st.beforeChange), st.beforeChange[k] != nil)
+//@ # nseedw: seeds written by Init (the values that are announced afterwards are exactly these)
+//@ ghostvar nseedw int
+//@ # lastseed: the id of the seed written last in the current step of the seed loop (-1: none)
+//@ ghostvar lastseed int
 //@ func Store.Init$1(txn *badger.Txn) (err error)
 //@   requires cbsOK(st) && txn != nil && cb != nil && created != nil
-//@   modifies ghost.kvhas, ghost.initcbn, alloc, bytes, map:map[string]interface{}
+//@   modifies ghost.kvhas, ghost.initcbn, ghost.nseedw, ghost.lastseed, alloc, bytes, map:map[string]interface{}
+//@   ghost call Store.setValue#1 after :: set nseedw = nseedw + ite(isNil(arg_err), 1, 0)
+//@   ghost call Store.setValue#1 after :: set lastseed = ite(isNil(arg_err), keyid(id), 0 - 1)
+//@   ghost call Txn.Get#2 after :: set lastseed = 0 - 1
+//@   ghost mapupdate created#1 before :: assert written: lastseed == keyid(arg_key)
+//@   # what will be announced (created) gets an id only right after that seed was written (C14: a seed that is skipped
+//@   # because the value exists runs no callback)
 //@   strkeys pairwise
 //@   callback cb initCB
 //@   # a seed is only written where no value exists
@@ -382,9 +392,14 @@ package badgerstore
 //@   ensures none: imp(old(len(qs.idxs)) == 0, isNil(rerr) && kvhas == old(kvhas) && ndrop == old(ndrop))
 //@   loop 1 invariant ndrop == old(ndrop) + _seenn && _seenn <= len(qs.idxs) && itopen == 0 && qs != nil && qs.st != nil && qs.st.DB != nil && forallint(k, imp(mapHasId(qs.idxs, k), mapValId(qs.idxs, k).Key != nil))
 //@ # the decoding closure handed to Item.Value
+//@ # newfresh: the value about to be decoded into was allocated for this item (encoding/json does not reset its target:
+//@ # a value reused for the next item would keep the members that item lacks)
+//@ ghostvar newfresh bool
 //@ func QueryStore.RebuildIndexes$1$1(dta []byte) (err error)
-//@   modifies alloc
+//@   requires fresh.target: newfresh
+//@   modifies alloc, ghost.newfresh
 //@   callsite Unmarshal#1 json.UnmarshalFresh
+//@   ghost call Unmarshal#1 after :: set newfresh = false
 //@ # nset: index entries written by the rebuild
 //@ ghostvar nset int
 //@ # knn: key-function results that were not nil (index membership is "Key(v) != nil", as in updateIndex and affectsQuery)
@@ -396,6 +411,7 @@ package badgerstore
 //@   requires qs != nil && qs.st != nil && txn != nil && itopen == 0 && forallint(k, imp(mapHasId(qs.idxs, k), mapValId(qs.idxs, k).Key != nil))
 //@   modifies all
 //@   callback Key keyCBnn
+//@   ghost call New#1 after :: set newfresh = true
 //@   ghost call Txn.Set#1 after :: set nset = nset + 1
 //@   # every key that is not nil gets its entry (an empty key is a key)
 //@   ensures every.key: imp(isNil(err), nset - old(nset) == knn - old(knn))
